@@ -1,6 +1,266 @@
-//! Hand-written fully static compositions (non-erased monomorphisations).
+//! Hand-written fully static compositions: the same term language as the dynamic interpreter,
+//! but each recognised term skeleton is built with concrete (non-erased) adaptor types over
+//! `&mut Tensor` / `&mut Matrix` leaves, so the generic code is exercised in the monomorphisations
+//! a user of the crate gets.  `(2 2 term probes writes)`; the model treats it exactly like op 1.
+use super::build::{e_access, e_shape, e_strict, index_range, params, Params};
+use super::observe;
+use crate::guarded;
 use crate::sx::*;
+use easy_ml::interop::TensorRefMatrix;
+use easy_ml::matrices::Matrix;
+use easy_ml::tensors::indexing::{TensorAccess, TensorTranspose};
+use easy_ml::tensors::views::{
+    IndexRange, TensorChain, TensorExpansion, TensorIndex, TensorMask, TensorMut, TensorRange,
+    TensorRename, TensorReverse, TensorStack,
+};
+use easy_ml::tensors::Tensor;
 
-pub fn run(_args: &[Sx]) -> Sx {
-    bad_case()
+/// leaf storage: dumped (in term order) and freed after the view is gone
+pub struct Leaves {
+    dumps: Vec<Box<dyn Fn() -> Sx>>,
+    frees: Vec<Box<dyn FnOnce()>>,
+}
+impl Leaves {
+    fn new() -> Leaves {
+        Leaves { dumps: vec![], frees: vec![] }
+    }
+    fn dump(&self) -> Sx {
+        l(self.dumps.iter().map(|f| f()).collect())
+    }
+}
+impl Drop for Leaves {
+    fn drop(&mut self) {
+        for f in self.frees.drain(..) {
+            f();
+        }
+    }
+}
+
+type R<T> = Result<T, Sx>;
+
+fn leaf<const D: usize>(ls: &mut Leaves, t: &Sx) -> R<&'static mut Tensor<i64, D>> {
+    let v = t.list().ok_or_else(bad_case)?;
+    if v.len() != 3 || v[0].i64() != Some(0) {
+        return Err(bad_case());
+    }
+    let id = v[1].i64().ok_or_else(bad_case)?;
+    let shape = v[2].pairs_usize().ok_or_else(bad_case)?;
+    if shape.len() != D {
+        return Err(bad_case());
+    }
+    let shape: [(&'static str, usize); D] = shape_arr(&shape);
+    let elements = shape.iter().try_fold(1usize, |a, x| a.checked_mul(x.1)).filter(|e| *e <= 100_000).ok_or_else(bad_case)?;
+    let data: Vec<i64> = (0..elements as i64).map(|k| id * 1000 + k).collect();
+    match Tensor::try_from(shape, data) {
+        Err(e) => Err(err(e_shape(&e))),
+        Ok(t) => {
+            let p = Box::into_raw(Box::new(t));
+            ls.dumps.push(Box::new(move || l(unsafe { &*p }.iter().map(z).collect())));
+            ls.frees.push(Box::new(move || drop(unsafe { Box::from_raw(p) })));
+            Ok(unsafe { &mut *p })
+        }
+    }
+}
+
+fn matrix_leaf(ls: &mut Leaves, t: &Sx) -> R<TensorRefMatrix<i64, &'static mut Matrix<i64>, [&'static str; 2]>> {
+    let v = t.list().ok_or_else(bad_case)?;
+    if v.len() != 6 || v[0].i64() != Some(12) {
+        return Err(bad_case());
+    }
+    let id = v[1].i64().ok_or_else(bad_case)?;
+    let n: Vec<usize> = v[2..6].iter().map(|x| x.usize()).collect::<Option<_>>().ok_or_else(bad_case)?;
+    let elements = n[0].checked_mul(n[1]).filter(|e| *e <= 100_000).ok_or_else(bad_case)?;
+    let data: Vec<i64> = (0..elements as i64).map(|k| id * 1000 + k).collect();
+    let m = guarded(|| Matrix::from_flat_row_major((n[0], n[1]), data)).ok_or_else(panicked)?;
+    let p = Box::into_raw(Box::new(m));
+    ls.dumps.push(Box::new(move || l(unsafe { &*p }.row_major_iter().map(z).collect())));
+    ls.frees.push(Box::new(move || drop(unsafe { Box::from_raw(p) })));
+    TensorRefMatrix::with_names(unsafe { &mut *p }, [dim(n[2]), dim(n[3])]).map_err(|e| err(e_shape(&e)))
+}
+
+fn all_params<const D: usize>(p: &Sx) -> R<(bool, [Option<IndexRange>; D])> {
+    match params(p).ok_or_else(bad_case)? {
+        Params::All(strict, all) if all.len() == D => {
+            Ok((strict, std::array::from_fn(|d| all[d].map(|(s, n)| index_range(s, n, d)))))
+        }
+        _ => Err(bad_case()),
+    }
+}
+
+fn s_range<S: TensorMut<i64, D>, const D: usize>(src: S, p: &Sx) -> R<TensorRange<i64, S, D>> {
+    let (strict, arr) = all_params::<D>(p)?;
+    if strict {
+        guarded(|| TensorRange::from_all_strict(src, arr)).ok_or_else(panicked)?.map_err(|e| err(e_strict(&e)))
+    } else {
+        guarded(|| TensorRange::from_all(src, arr)).ok_or_else(panicked)?.map_err(|e| err(e_shape(&e)))
+    }
+}
+fn s_mask<S: TensorMut<i64, D>, const D: usize>(src: S, p: &Sx) -> R<TensorMask<i64, S, D>> {
+    let (strict, arr) = all_params::<D>(p)?;
+    if strict {
+        guarded(|| TensorMask::from_all_strict(src, arr)).ok_or_else(panicked)?.map_err(|e| err(e_strict(&e)))
+    } else {
+        guarded(|| TensorMask::from_all(src, arr)).ok_or_else(panicked)?.map_err(|e| err(e_shape(&e)))
+    }
+}
+fn names<const D: usize>(s: &Sx) -> R<[&'static str; D]> {
+    let v = s.usizes().ok_or_else(bad_case)?;
+    if v.len() != D {
+        return Err(bad_case());
+    }
+    Ok(names_arr(&v))
+}
+fn s_reverse<S: TensorMut<i64, D>, const D: usize>(src: S, ns: &Sx) -> R<TensorReverse<i64, S, D>> {
+    let v: Vec<&'static str> = ns.usizes().ok_or_else(bad_case)?.iter().map(|n| dim(*n)).collect();
+    guarded(|| TensorReverse::from(src, &v)).ok_or_else(panicked)
+}
+fn s_rename<S: TensorMut<i64, D>, const D: usize>(src: S, ns: &Sx) -> R<TensorRename<i64, S, D>> {
+    let ns = names::<D>(ns)?;
+    guarded(|| TensorRename::from(src, ns)).ok_or_else(panicked)
+}
+fn s_access<S: TensorMut<i64, D>, const D: usize>(src: S, ns: &Sx) -> R<TensorAccess<i64, S, D>> {
+    let ns = names::<D>(ns)?;
+    TensorAccess::try_from(src, ns).map_err(|e| err(e_access(&e)))
+}
+fn s_transpose<S: TensorMut<i64, D>, const D: usize>(src: S, ns: &Sx) -> R<TensorTranspose<i64, S, D>> {
+    let ns = names::<D>(ns)?;
+    TensorTranspose::try_from(src, ns).map_err(|e| err(e_access(&e)))
+}
+
+/// "6(2(10(0/2,0/2)))": adaptor tags with the leaf dimensionalities
+fn skeleton(t: &Sx) -> Option<String> {
+    let v = t.list()?;
+    let tag = v.first()?.i64()?;
+    Some(match tag {
+        0 => format!("0/{}", v.get(2)?.list()?.len()),
+        12 => "12".to_string(),
+        9 | 10 => {
+            let subs: Option<Vec<String>> = v.get(1)?.list()?.iter().map(skeleton).collect();
+            format!("{}({})", tag, subs?.join(","))
+        }
+        1..=8 | 11 => format!("{}({})", tag, skeleton(v.get(1)?)?),
+        _ => return None,
+    })
+}
+
+fn finish<S: TensorMut<i64, D>, const D: usize>(
+    view: S,
+    ls: &Leaves,
+    probes: &[Vec<usize>],
+    writes: &[(Vec<usize>, i64)],
+    form: usize,
+) -> Sx {
+    if probes.iter().any(|p| p.len() != D) || writes.iter().any(|w| w.0.len() != D) {
+        return bad_case();
+    }
+    match observe::<S, D>(view, probes, writes, form) {
+        Err(code) => code,
+        Ok(mut items) => {
+            let flags = items.pop().unwrap();
+            items.push(l(vec![flags, ls.dump()]));
+            ok(l(items))
+        }
+    }
+}
+
+pub fn execute(term: &Sx, probes: &[Vec<usize>], writes: &[(Vec<usize>, i64)], form: usize) -> Sx {
+    let Some(sk) = skeleton(term) else { return bad_case() };
+    let mut ls = Leaves::new();
+    let at = |t: &Sx, path: &[usize]| -> Sx {
+        let mut cur = t.clone();
+        for &i in path {
+            cur = cur.list().expect("skeleton")[i].clone();
+        }
+        cur
+    };
+    // every builder returns Err(result line) on the first failing constructor, like build()
+    macro_rules! go {
+        ($build:expr) => {{
+            let built = (|| $build)();
+            match built {
+                Err(failure) => failure,
+                Ok(view) => finish(view, &ls, probes, writes, form),
+            }
+        }};
+    }
+    match sk.as_str() {
+        // reversal over a mask over a chain of two tensors (tuple form)
+        "6(2(10(0/2,0/2)))" => {
+            let a = leaf::<2>(&mut ls, &at(term, &[1, 1, 1, 0]));
+            let b = a.and_then(|a| leaf::<2>(&mut ls, &at(term, &[1, 1, 1, 1])).map(|b| (a, b)));
+            go!({
+                let (a, b) = b?;
+                let along = dim(at(term, &[1, 1, 2]).usize().ok_or_else(bad_case)?);
+                let chain = guarded(|| TensorChain::<i64, (_, _), 2>::from((a, b), along)).ok_or_else(panicked)?;
+                let mask = s_mask(chain, &at(term, &[1, 2]))?;
+                s_reverse(mask, &at(term, &[2]))
+            })
+        }
+        // sub-range of a reversal
+        "1(6(0/3))" => {
+            let a = leaf::<3>(&mut ls, &at(term, &[1, 1]));
+            go!({
+                let rev = s_reverse(a?, &at(term, &[1, 2]))?;
+                s_range(rev, &at(term, &[2]))
+            })
+        }
+        // selection out of an expansion
+        "3(4(0/2))" => {
+            let a = leaf::<2>(&mut ls, &at(term, &[1, 1]));
+            go!({
+                let es = at(term, &[1, 2]).pairs_usize().ok_or_else(bad_case)?;
+                let ps = at(term, &[2]).pairs_usize().ok_or_else(bad_case)?;
+                if es.len() != 1 || ps.len() != 1 {
+                    return Err(bad_case());
+                }
+                let a = a?;
+                let ex = guarded(|| TensorExpansion::<i64, _, 2, 1>::from(a, [(es[0].0, dim(es[0].1))])).ok_or_else(panicked)?;
+                guarded(|| TensorIndex::<i64, _, 3, 1>::from(ex, [(dim(ps[0].0), ps[0].1)])).ok_or_else(panicked)
+            })
+        }
+        // transposition of a reordering (the class of finding F13)
+        "8(7(0/3))" => {
+            let a = leaf::<3>(&mut ls, &at(term, &[1, 1]));
+            go!({
+                let acc = s_access(a?, &at(term, &[1, 2]))?;
+                s_transpose(acc, &at(term, &[2]))
+            })
+        }
+        // stack (tuple form) of two renamed vectors
+        "9(5(0/1),5(0/1))" => {
+            let a = leaf::<1>(&mut ls, &at(term, &[1, 0, 1]));
+            go!({
+                let ra = s_rename(a?, &at(term, &[1, 0, 2]))?;
+                let b = leaf::<1>(&mut ls, &at(term, &[1, 1, 1]))?;
+                let rb = s_rename(b, &at(term, &[1, 1, 2]))?;
+                let pos = at(term, &[2]).usize().ok_or_else(bad_case)?;
+                let name = dim(at(term, &[3]).usize().ok_or_else(bad_case)?);
+                guarded(|| TensorStack::<i64, (_, _), 1>::from((ra, rb), (pos, name))).ok_or_else(panicked)
+            })
+        }
+        // mask over a matrix-backed source
+        "2(12)" => {
+            let m = matrix_leaf(&mut ls, &at(term, &[1]));
+            go!({ s_mask(m?, &at(term, &[2])) })
+        }
+        // Box<S> of a sub-range
+        "11(1(0/1))" => {
+            let a = leaf::<1>(&mut ls, &at(term, &[1, 1]));
+            go!({ s_range(a?, &at(term, &[1, 2])).map(Box::new) })
+        }
+        // reordering of a selection
+        "7(3(0/3))" => {
+            let a = leaf::<3>(&mut ls, &at(term, &[1, 1]));
+            go!({
+                let ps = at(term, &[1, 2]).pairs_usize().ok_or_else(bad_case)?;
+                if ps.len() != 1 {
+                    return Err(bad_case());
+                }
+                let a = a?;
+                let sel = guarded(|| TensorIndex::<i64, _, 3, 1>::from(a, [(dim(ps[0].0), ps[0].1)])).ok_or_else(panicked)?;
+                s_access(sel, &at(term, &[2]))
+            })
+        }
+        _ => bad_case(),
+    }
 }
